@@ -18,7 +18,7 @@ from .. import cells as CL
 from .. import check as CK
 from .. import monitor, pool, rel, tlc
 
-N_ACC = {"quick": 90, "thorough": 100000}
+N_ACC = {"quick": 120, "thorough": 100000}
 N_REF = {"quick": 250, "thorough": 100000}
 
 
@@ -92,10 +92,14 @@ def run(prop, tier, seed):
         if n >= len(pop):
             return list(pop)
         chosen = {}
-        for field in ("s", "d", "p"):
-            vals = sorted({c[field] for c in pop})
+        # every value of every field, then every (solver, penalty, intercept) and (solver, datafit, storage) class:
+        # interactions between a solver and one other component are where compositions break
+        for fields in (("s",), ("d",), ("p",), ("s", "p", "fi"), ("s", "d", "sp")):
+            vals = sorted({tuple(c[f] for f in fields) for c in pop}, key=str)
             for v in vals:
-                cand = [c for c in pop if c[field] == v and c["id"] not in chosen]
+                if any(tuple(c[f] for f in fields) == v for c in chosen.values()):
+                    continue
+                cand = [c for c in pop if tuple(c[f] for f in fields) == v]
                 if cand:
                     c = cand[int(rng.integers(len(cand)))]
                     chosen[c["id"]] = c
